@@ -21,6 +21,17 @@ class SP(MultiQueueScheduler):
         self.priorities = sorted(priorities.items(), key=lambda item: item[1], reverse=True)
         self.proc = env.process(self.run(env))
 
+    def put(self, packet: Packet):
+        """File the packet in the subqueue of its CLASS: run() scans the
+        priority table, which is keyed by class id (flow2class), while the
+        counters stay per flow as in every other scheduler."""
+        flow_id = packet.flow_id
+        if self.total_packets == 0:
+            self.packets_available.put(True)
+        self.add_packet_to_queue(packet)
+        self.dprint(f"received packet {packet.packet_id} from flow {flow_id}")
+        self.stores[self.flow2class(flow_id)].put(packet)
+
     def run(self, env: Environment) -> ProcessGenerator:
         while True:
             for flow_id, prio in self.priorities:
